@@ -68,7 +68,11 @@ func (g *domGen) node(depth int) map[string]any {
 		if g.special && g.r.Intn(3) == 0 {
 			name = domDirectiveAttrs[g.r.Intn(len(domDirectiveAttrs))]
 		}
-		attrs = append(attrs, []any{name, g.str()})
+		val := g.str()
+		if g.r.Intn(8) == 0 {
+			val = name // a value spelled like the attribute's name
+		}
+		attrs = append(attrs, []any{name, val})
 	}
 	if g.special && g.r.Intn(8) == 0 {
 		key := "data-v-html-content"
@@ -143,7 +147,16 @@ func (g *srcGen) attrs() string {
 			continue
 		}
 		used[n] = true
-		fmt.Fprintf(&sb, ` %s="%s"`, n, srcAttrVals[g.r.Intn(len(srcAttrVals))])
+		val := srcAttrVals[g.r.Intn(len(srcAttrVals))]
+		// one attribute in six has a value that is spelled like its own NAME (name="name", class="Class", the XHTML checked="checked"): a value
+		// like any other
+		switch g.r.Intn(12) {
+		case 0:
+			val = n
+		case 1:
+			val = strings.ToUpper(n[:1]) + n[1:]
+		}
+		fmt.Fprintf(&sb, ` %s="%s"`, n, val)
 	}
 	return sb.String()
 }
